@@ -47,6 +47,7 @@ class ExpressionSolver:
 
     def solve(self, expr:Union[str,Expression]):
         self.expr = Expression(expr) if isinstance(expr, str) else expr
+        self.tokens = Tokens(self.tokens.atom)  # tokens left over by a previously failed solve must not leak in
         
         # Tokenize expression
         while self.expr.right:
